@@ -33,7 +33,7 @@ META = {
                   'final check, so fibre_scheduler_next may return a late wake-up although a request completed; the monitor\'s `disturbed` flag suspends its oversleep/starvation rules while a thread sender is in flight. '
                   'The executable runner (interrupt scripts at numbered gaps, nesting, thread senders, quiescent run) is proved to pass only through reachable states, and without thread senders only through '
                   'states in which no sender is inside a call.',
-    'level_note': 'Tie T2 (DESIGN 12): the message-queue arithmetic both queues of this model re-use is regenerated from messageq.c each run and proved equal to Model.Messageq (Props/C10Tie.lean; bv_decide certificates for its *_generated theorems only); event queues of 64 KiB .. 2 MiB storage are exercised on the real code by the sequential bigq probe (implementation only). dispatch_within_runq_passes is PROVED: a fibre at position i of the run queue is dispatched by one of the next i+1 uninterrupted passes (from every reachable state; hypotheses: the fibres dispatched meanwhile make no '
+    'level_note': 'Tie T2 for fibre_run_atomic (DESIGN 13.5e: regenerated from fibre.c, messageq_claim/messageq_send external, add_taint inlined; Props/C06Tie.lean: result and send = fibreRunAtomic of the model, one send per successful claim; bv_decide certificates in fibre_run_atomic_generated*). Tie T2 (DESIGN 12): the message-queue arithmetic both queues of this model re-use is regenerated from messageq.c each run and proved equal to Model.Messageq (Props/C10Tie.lean; bv_decide certificates for its *_generated theorems only); event queues of 64 KiB .. 2 MiB storage are exercised on the real code by the sequential bigq probe (implementation only). dispatch_within_runq_passes is PROVED: a fibre at position i of the run queue is dispatched by one of the next i+1 uninterrupted passes (from every reachable state; hypotheses: the fibres dispatched meanwhile make no '
                   'fibre_run/fibre_kill calls of their own (bscript = [] - a body\'s fibre_kill(f) would of course remove f), runner not cut for fuel), '
                   'pass_dispatches_the_head, joins_at_the_tail; the monitor\'s `starved` verdict (a request outstanding at the beginning of nf complete undisturbed passes) additionally checks the bound on the real code. '
                   'NOT proved, only checked on every run by the correspondence (sampling + small exhaustive scopes, never called proof): implementation = model on the compared outputs; '
@@ -616,7 +616,18 @@ def run(ctx):
     # tie T2: the message queue arithmetic this engine's model re-uses is regenerated from messageq.c and proved equal to the model
     sys.path.insert(0, os.path.dirname(os.path.abspath(__file__)))
     import tie_common
-    tie_common.prove(ctx, ['MessageqSeq'], ['Librfn.Props.C06'], REQUIRED, 'Librfn.Props.C10Tie', 'Librfn.C10.Tie')
+    # ... and fibre_run_atomic (the interrupt-context wake-up) is regenerated from fibre.c with the queue as the environment
+    # (Props/C06Tie.lean): one send per successful claim, the fibre pointer stored in the claimed buffer, false + taint otherwise
+    import regen
+    deps = [('Librfn.Props.C06Tie', 'Librfn.C06.Tie')]
+    for u, e in regen.regen(['FibreSeq']):
+        ctx.broken.append(f'tie T: tools/c2lean2.py cannot translate unit {u}: {e}')
+    ch = regen.signature_changes('FibreSeq', only=['fibre_run_atomic'])
+    if ch:
+        ctx.broken.append('tie T: the interface of the regenerated fibre_run_atomic differs from the one Props/C06Tie.lean is stated against (' + '; '.join(ch)[:600] + ')')
+        deps = []
+    ra_allow = lambda t, a: t.startswith('Librfn.C06.Tie.') and a.startswith('Librfn.C06.Tie.fibre_run_atomic_generated') and '._native.bv_decide.ax_' in a
+    tie_common.prove(ctx, ['MessageqSeq'], ['Librfn.Props.C06'], REQUIRED, 'Librfn.Props.C10Tie', 'Librfn.C10.Tie', extra_allow=ra_allow, dependents=deps)
     exe = harness(ctx)
     if 'VERIF_OPT' not in os.environ and 'VERIF_CFG' not in os.environ:
         big_geometry_probe(ctx, exe, vlib.Rng(ctx.seed * 13 + 1))
